@@ -23,6 +23,7 @@ def gen_C01(ctx):
     out += st_classes(ctx, shapes, "c01-cls")
     out += st_huge(ctx)
     out += st_scalars_parse(utf8_boundary_scalars())
+    out += st_cksum_texts(ctx, ("parse",))
     return out
 
 
@@ -260,6 +261,13 @@ def gen_C09(ctx):
     for k in range(1, depth + 1):
         for tup in itertools.product(steps, repeat=k):
             out.append(case("build S %s %s %s" % (hx("T"), hx("n"), ";".join(tup)), "builder-exhaustive", shape="S"))
+    # more qualifiers than any small-size fast path would hold, a late one in the middle, an override in another case
+    for nq in (15, 16, 17, 18, 20, 33):
+        for sh, ty in (("S", hx("generic")), ("P", "Cargo"), ("M", hx("t"))):
+            steps = ["q:%s:%s" % (hx("k%02d" % i), hx("v%02d" % i)) for i in range(nq)]
+            steps += ["q:%s:%s" % (hx("k01x"), hx("late")), "q:%s:%s" % (hx("K07"), hx("override")), "q:%s:%s" % (hx("a"), hx("first")), "q:%s:%s" % (hx("zz"), hx("last")),
+                      "-q:" + hx("K03"), "q:%s:%s" % (hx("k02"), hx(""))]
+            out.append(case("build %s %s %s %s" % (sh, ty, hx("name"), ";".join(steps)), "builder", shape=sh))
     return out
 
 
@@ -275,6 +283,7 @@ def gen_C05(ctx):
     out += st_long(ctx, shapes, "c05-long", every=ctx.tier == "thorough")
     out += st_cksum_texts(ctx, ("parse",))
     out += st_scheme_subst(shapes)
+    out += st_dup_keys(shapes)
     return out
 
 
@@ -297,6 +306,7 @@ def gen_C11(ctx):
     out += st_quals(ctx, ctx.n(12000, 800000), "c11-quals", maxsteps=10, documented_panics=True)
     out += st_qcmp(ctx, ctx.n(3000, 200000), "c11-qcmp")
     out += [c for c in st_long_api(ctx) if c["req"].startswith("quals ")]
+    out += st_dup_keys(["S", "P"])
     return out
 
 
@@ -324,6 +334,23 @@ def st_cksum_purl(ctx, n, label="cksum-purl"):
     return out
 
 
+def st_pip_fragments():
+    """a checksum qualifier next to a subpath that looks like pip's `#sha256=…` / `#egg=…` fragments: the subpath is a
+    subpath, the checksum is what the qualifier says"""
+    out = []
+    e3 = "e3b0c44298fc1c149afbf4c8996fb92427ae41e4649b934ca495991b7852b855"
+    n9 = "9f86d081884c7d659a2feaa0c55ad015a3bf4f1b2b0b822cd15d6c15b0f00a08"
+    for ty in ("pypi", "npm", "generic"):
+        for frag in ("SHA256=" + n9, "sha256=" + n9, "md5=" + "0" * 32, "sha1=" + "a" * 40, "egg=name", "subdirectory=pkg", "sha256=" + n9[:10]):
+            for q_ in ("checksum=sha256:" + e3, "checksum=MD5:" + "0F" * 16, "Checksum=sha1:" + "AB" * 20 + ",md5:" + "00" * 16):
+                s_ = "pkg:%s/requests@2.31.0?%s#%s" % (ty, q_, frag)
+                val = q_.split("=", 1)[1]
+                canon = ",".join(sorted("%s:%s" % (e_.rsplit(":", 1)[0].lower(), e_.rsplit(":", 1)[1].lower()) for e_ in val.split(",")))
+                for sh in (("S", "P") if ty != "generic" else ("S",)):
+                    out.append(case("parse %s %s" % (sh, hx(s_)), "cksum-purl", s=s_, canon=canon, shape=sh))
+    return out
+
+
 def gen_C12(ctx):
     out = st_cksum(ctx, ctx.n(9000, 600000), "c12-cksum")
     out += st_cksum_orders(ctx, ctx.n(2500, 150000), "c12-orders")
@@ -341,6 +368,7 @@ def gen_C12(ctx):
             for perm in itertools.permutations(sub):
                 steps = ["ins:%s:%s" % (hx(a), b) for a, b in perm]
                 out.append(case("cksum " + ";".join(steps) + ";text;iter;rt", "cksum-exhaustive"))
+    out += st_pip_fragments()
     return out
 
 
@@ -395,6 +423,15 @@ def gen_C15(ctx):
     for c in st_ptype_exhaustive():
         s_ = "pkg:%s/ns/name@1.0" % c["s"]
         out.append(case("parse P " + hx(s_), "ptype-in-purl", s=s_, expect=c["expect"], shape="P"))
+    # the same behind the slashes a PURL may have after `pkg:`, and a longer type behind them (refused)
+    for name in KNOWN_TYPES:
+        for nsl in (1, 2, 3):
+            for var in (name.upper(), name.capitalize(), name, name[:-1] + name[-1].upper()):
+                s_ = "pkg:%s%s/ns/name@1.0" % ("/" * nsl, var)
+                out.append(case("parse P " + hx(s_), "ptype-in-purl", s=s_, expect=name, shape="P"))
+                for suf in ("js", "x", "1", "-"):
+                    s2_ = "pkg:%s%s%s/ns/name" % ("/" * nsl, var, suf)
+                    out.append(case("parse P " + hx(s2_), "ptype-escaped", s=s2_, shape="P"))
     for ident in IDENTS:
         out.append(case("serde P pt %s" % ident, "pt", ident=ident))
         out.append(case("serde P ser %s" % hx("pkg:%s/ns/name@1.0" % ident.upper()), "ser", s="pkg:%s/ns/name@1.0" % ident.upper(), shape="P", expect=ident.lower()))
